@@ -3,7 +3,7 @@
 Scalars are Python values when concrete and z3 terms when symbolic:
   integers  -> I(v, ty)  v: int | z3 Int term ; ty: Rust type name or None (untyped literal)
   booleans  -> bool | z3 Bool term
-  strings   -> S(v)      v: str | z3 String term
+  strings   -> S(v)      v: str | z3 Int term over interned string ids (no string theory)
   floats    -> F(v)      v: float | z3 Float64 term
 Compound values are immutable-by-convention Python objects that are rebuilt on update.
 Containers are bounded: a Vec is (slots, n) with n possibly symbolic; a map/set is a
@@ -129,6 +129,39 @@ class I:
         return "I(%s:%s)" % (self.v, self.ty)
 
 
+STR_IDS = {}
+STR_BY_ID = []
+
+
+def intern(s):
+    """strings are interned: a symbolic string is an Int term (an ite tree over ids of
+    concrete strings), so equality is integer equality and z3's string theory is never used"""
+    i = STR_IDS.get(s)
+    if i is None:
+        i = len(STR_BY_ID)
+        STR_IDS[s] = i
+        STR_BY_ID.append(s)
+    return i
+
+
+def s_leaves(term, limit=256):
+    """[(path condition, python str)] of an interned-string term (ite tree over numerals)"""
+    out = []
+
+    def walk(t, cond):
+        if len(out) > limit:
+            raise Unsupported("string term with more than %d alternatives" % limit)
+        if z3.is_int_value(t):
+            out.append((cond, STR_BY_ID[t.as_long()]))
+        elif z3.is_app_of(t, z3.Z3_OP_ITE):
+            walk(t.arg(1), band(cond, t.arg(0)))
+            walk(t.arg(2), band(cond, bnot(t.arg(0))))
+        else:
+            raise Unsupported("free string term (strings must come from concrete alternatives)")
+    walk(term, True)
+    return out
+
+
 class S:
     __slots__ = ("v",)
 
@@ -136,7 +169,10 @@ class S:
         self.v = v
 
     def z(self):
-        return z3.StringVal(self.v) if isinstance(self.v, str) else self.v
+        return z3.IntVal(intern(self.v)) if isinstance(self.v, str) else self.v
+
+    def leaves(self):
+        return [(True, self.v)] if isinstance(self.v, str) else s_leaves(self.v)
 
     def conc(self):
         return isinstance(self.v, str)
